@@ -310,6 +310,8 @@ def sched_case(
         case["via"] = "config"
         if draw(st.booleans()):
             case["build_mc"] = draw(st.integers(1, 5))
+        if draw(st.booleans()):
+            case["group_conf"] = True  # equal attributes -> one entry keyed by a tag shared by those sites
     return case
 
 
